@@ -65,7 +65,7 @@ def handleInterrupt (s : St) : St :=
 /-- Accept one inbound connection. -/
 def handleAccept (s : St) : St :=
   let cid := s.conns.length
-  let c : Conn := { id := cid, dir := .recv, state := .connected, lastRead := s.now, hbh := s.nextHbhSeed }
+  let c : Conn := { id := cid, dir := .recv, state := .connected, lastRead := s.now, established := s.now, hbh := s.nextHbhSeed }
   let s := { s with nextHbhSeed := s.nextHbhSeed + 1000 }
   (addPeerConnection s c).1
 
@@ -100,7 +100,7 @@ def handleWritable (w : World) (cid : Nat) : World :=
             | some (_, b) => b
             | none => true
           if ok then
-            let s := s.modConn cid fun c => { c with state := .connected }
+            let s := s.modConn cid fun c => { c with state := .connected, established := s.now }
             let s := match findConnectionPeer s c with
               | some i => s.modPeer i fun p => { p with lastConnect := some s.now }
               | none => s
